@@ -20,7 +20,7 @@ import (
 // own buffer and reports n == 0.
 const sigReadDrops = "secretconn-read-reports-zero-for-buffered-bytes"
 
-const hsWatchdog = 30 * time.Second
+const hsWatchdog = 60 * time.Second
 
 type hsRes struct {
 	sc  *p2p.SecretConnection
